@@ -90,9 +90,38 @@ fn random_fns(rng: &mut Rng) -> Vec<(bool, bool, usize, Vec<(bool, usize)>)> {
         (0..rng.below(3)).map(|_| (rng.chance(3, 4), rng.below(3))).collect())).collect()
 }
 
+/// ModuleHeader accessors (specification growth beyond the listed properties): version(), generator(), set_version
+fn header_events(out: &mut Out, rng: &mut Rng, n: usize) {
+    for k in 0..n {
+        let vw = if k < 64 { ((k as u32 % 8) << 16) | ((k as u32 / 8) << 8) } else { rng.word() };
+        let gw = if k < 40 { ((k as u32 % 20) << 16) | (k as u32 * 37) } else { rng.word() };
+        let (ma, mi) = ((rng.below(256)) as u8, (rng.below(256)) as u8);
+        let r = catch(|| {
+            let mut h = dr::ModuleHeader::new(rng.word());
+            h.version = vw;
+            h.generator = gw;
+            let v = h.version();
+            let (gn, gv) = { let g = h.generator(); (g.0.to_string(), g.1) };
+            h.set_version(ma, mi);
+            (v, gn, gv, h.version, h.generator, h.magic_number, h.reserved_word)
+        });
+        match r {
+            Ok((v, gn, gv, after, gen_after, magic, reserved)) => out.ev(json!({"ev": "hdr", "st": "ok", "vw": jw(vw), "gw": jw(gw), "version": [v.0, v.1], "gen_name": gn, "gen_ver": gv,
+                "set": [ma, mi], "after_set": jw(after), "gen_after": jw(gen_after), "magic": jw(magic), "reserved": jw(reserved)})),
+            Err(p) => out.ev(json!({"ev": "hdr", "st": "panic", "vw": jw(vw), "gw": jw(gw), "panic": jpanic(&p)})),
+        }
+    }
+}
+
 pub fn drive(args: &[String]) {
     let mut out = Out::create(arg(args, "--out").expect("--out"));
     let mut rng = Rng::new(arg_num(args, "--seed", 1));
+    if args.iter().any(|a| a == "--header-api") {
+        header_events(&mut out, &mut rng, arg_num(args, "--n", 300) as usize);
+        let events = out.finish();
+        println!("{}", json!({"events": events}));
+        return;
+    }
     let mode = arg(args, "--mode").unwrap_or("quick");
     let mut shapes = 0usize;
     let mut emit = |s: &Shape, out: &mut Out| { out.ev(event(s)); };
